@@ -40,7 +40,15 @@ def main(argv):
         if diff.strip():
             open(patch, "w").write(diff)
         if os.path.exists(os.path.join(wt, "demo.py")):
-            shutil.copy(os.path.join(wt, "demo.py"), os.path.join(d, "demo.py"))
+            import re
+
+            src = open(os.path.join(wt, "demo.py")).read()
+            # some demos assert that pyrepseq was imported from the agent's own worktree: make the archived copy
+            # independent of where it is run (it is always run with the tree under test as cwd)
+            src2 = re.sub(r"""(["'])%s/?\1""" % re.escape(wt.rstrip("/")), '__import__("os").getcwd()', src)
+            if src2 != src:
+                src2 = "# archived copy: the literal worktree path of the agent was replaced by os.getcwd()\n" + src2
+            open(os.path.join(d, "demo.py"), "w").write(src2)
     meta_path = os.path.join(d, "meta.json")
     meta = json.load(open(meta_path)) if os.path.exists(meta_path) else {}
     meta.update({"id": sid, "property": prop, "files": sorted(set(l[6:] for l in open(patch) if l.startswith("+++ b/")))})
